@@ -20,6 +20,20 @@ Theorem C31_topk_spec : forall w k l, (1 <= w)%nat ->
       forall a b, In a out -> In b rest -> (tkey (e_sc b) <= tkey (e_sc a))%Z.
 Proof. exact topk_fixed_spec. Qed.
 
+(* (1') the contract pins the scores: ANY output meeting it carries exactly the scores (total_cmp
+        keys, hence bit patterns) of sort-descending-then-truncate, so "the K largest" is unique;
+        in particular the fixed top-K agrees with the unit test's `reference_topk` on scores *)
+Theorem C31_topk_contract_fixes_scores : forall k l out, TopKSpec k l out ->
+  map (fun e => tkey (e_sc e)) out =
+  firstn (length out) (map (fun e => tkey (e_sc e)) (sort_desc l)).
+Proof. exact topk_spec_scores. Qed.
+
+Theorem C31_topk_scores_are_sort_truncate : forall w k l, (1 <= w)%nat ->
+  exists out, topk true w k l = Ok out /\
+    map (fun e => tkey (e_sc e)) out =
+    firstn (N.to_nat (N.min k (N.of_nat (length l)))) (map (fun e => tkey (e_sc e)) (sort_desc l)).
+Proof. exact topk_fixed_scores. Qed.
+
 (* (2) top-K is total: no panic for ANY k and n (k > n, k = 0, n = 0 included) *)
 Theorem C31_topk_total : forall w k l, (1 <= w)%nat -> topk true w k l <> Panic.
 Proof. exact topk_fixed_total. Qed.
